@@ -141,6 +141,11 @@ func c20Sequence(r *core.Rand) []*types.Packet {
 }
 
 func c20Framing(c *core.Ctx, o *c20Obs) {
+	if c.Index%64 == 43 {
+		// (without a size check the sender allocates the claimed size: in
+		// this address-space limited child that is a crash, which counts)
+		codec.CheckOversizedSend(o)
+	}
 	r := c.R
 	pkts := c20Sequence(r)
 	stream, sent := codec.BuildStream(o, pkts)
